@@ -101,6 +101,13 @@ def doktorov(ctx, rule="C20.doktorov"):
              for cn, call, reg, line in apps]
     ok = kinds == [("Interferometer", [0]), ("Sgate", [1]), ("Interferometer", [2]), ("Dgate", [3])]
     ctx.ob(rule, op.site, ok, "" if ok else f"operation order / parameters are {kinds}", role="order", line=op.node.lineno)
+    # the matrices are applied as they are handed in: gbs_params already returns them in the convention of the operator
+    for cn, call, reg, line in apps:
+        if cn == "Interferometer":
+            tr = [x for a in call.args for x in ast.walk(a) if isinstance(x, ast.Attribute) and x.attr in ("T", "H", "conj", "conjugate", "transpose")
+                  or isinstance(x, ast.Call) and dotted(x.func) in ("np.transpose", "np.conj", "np.conjugate")]
+            ctx.ob(rule, op.site, not tr, "" if not tr else f"`{ast.unparse(call)[:40]}` applies a transposed / conjugated factor: "
+                   "the operator is D(alpha) U2 S(r) U1 with the factors as returned by gbs_params", role="factors-as-given", line=line)
     for cn, call, reg, line in apps:
         _index_agreement(ctx, rule, op, cn, call, reg, line)
     dg = [c for cn, c, r, l in apps if cn == "Dgate"]
@@ -177,3 +184,19 @@ def rules(ctx):
     hbar(ctx)
     passive(ctx)
     doktorov(ctx)
+    fixed_samples(ctx)
+
+
+def fixed_samples(ctx, rule="C20.no-capture"):
+    ctx.explain(f"{rule}: (fixed sample set) VGBS.get_A_init_samples hands out the STORED samples: freshly generated samples reach the caller "
+                "only through add_A_init_samples (cost and gradient of the stochastic trainer must be computed on one and the same set).")
+    f = ctx.tree.func("apps/train/param.py", "VGBS.get_A_init_samples")
+    n = 0
+    for r, v in return_values(f.node):
+        n += 1
+        d = derives(f.node, r.value)
+        fresh = d.has_call("self.generate_samples", "generate_samples")
+        ok = "self.A_init_samples" in d.attrs and not fresh
+        ctx.ob(rule, f.site, ok, "" if ok else f"`{ast.unparse(r)[:50]}` returns samples that were not stored with add_A_init_samples: the "
+               "next call works on a different sample set", role="returns-stored-samples", line=r.lineno)
+    ctx.require(n >= 1, "get_A_init_samples returns nothing")
